@@ -1179,8 +1179,18 @@ impl Block {
 
         if winning_tx.transaction_type == TransactionType::ATR {
             let tmptx = winning_tx.data.to_vec();
-            winning_tx_placeholder =
-                Transaction::deserialize_from_net(&tmptx).expect("buffer to be valid");
+            winning_tx_placeholder = match Transaction::deserialize_from_net(&tmptx) {
+                Ok(transaction) => transaction,
+                Err(error) => {
+                    // (the payload of a rebroadcast is only compared with the original where the ledger is
+                    // validated: a node that is still syncing holds whatever its peers sent)
+                    warn!(
+                        "rebroadcast transaction carries a payload that is no transaction : {:?}",
+                        error
+                    );
+                    return [0; 33];
+                }
+            };
             winning_tx = &winning_tx_placeholder;
         } else {
             assert_ne!(
